@@ -783,7 +783,7 @@ def sample_streams(ctx, use_driver=True):
     n = 150 if ctx.tier == "quick" else 3000
     for _ in range(n):
         check_sample_case(ctx, gen_sample_case(rng), use_driver=use_driver)
-    n = 120 if ctx.tier == "quick" else 1500
+    n = 90 if ctx.tier == "quick" else 1500
     for _ in range(n):
         c = gen_sample_case(rng)
         law_case(ctx, c, M=64)
@@ -1653,6 +1653,204 @@ def gauss_streams(ctx):
 
 
 # --------------------------------------------------------------------------------------
+# Contraction._sample: discrete x Gaussian mixtures (Tensor + Gaussian), every inclusion pattern of inputs
+# --------------------------------------------------------------------------------------
+
+def gen_mixture_case(rng):
+    ni = rng.choice([1, 2, 2, 3, 3, 4])
+    inames = ["i", "j", "k", "l"][:ni]
+    member = {}
+    for n in inames:
+        member[n] = rng.choice(["T", "G", "both", "both"])
+    if not any(m in ("T", "both") for m in member.values()):
+        member[inames[0]] = "both"
+    isize = {n: rng.choice([1, 2, 2, 3]) for n in inames}
+    nr = rng.choice([1, 1, 2])
+    rnames = ["x", "y"][:nr]
+    rshape = {n: rng.choice([(), (), (2,)]) for n in rnames}
+    allnames = inames + rnames
+    m = rng.randint(1, len(allnames))
+    sampled = sorted(rng.sample(allnames, m))
+    if rng.random() < 0.5:        # the classic request: one shared discrete variable (+ the reals)
+        shared = [n for n in inames if member[n] == "both"] or [n for n in inames if member[n] == "T"]
+        sampled = sorted(set([rng.choice(shared)] + (rnames if rng.random() < 0.5 else [])))
+    particles = rng.choice([0, 0, 2, 3])
+    t_order = [n for n in inames if member[n] in ("T", "both")]
+    g_order = [n for n in inames if member[n] in ("G", "both")] + rnames
+    rng.shuffle(t_order)
+    rng.shuffle(g_order)
+    return dict(member=member, isize=isize, rshape=rshape, sampled=sampled, particles=particles,
+                t_order=t_order, g_order=g_order, seed=rng.randrange(2 ** 31), rank_extra=rng.choice([0, 0, 0, 1]),
+                flip=rng.random() < 0.3)
+
+
+MIX_PY = """
+# replay for C14: sampling a Tensor + Gaussian mixture (Contraction._sample) with injected randomness;
+# re-runs the harness' dense numpy oracle (fv/harness/c14.py check_mixture_case) on the recorded case
+import sys
+sys.path.insert(0, {verif!r})
+from fv.harness.c14 import replay_mixture
+FAILS = replay_mixture({case!r})
+"""
+
+
+def replay_mixture(case):
+    from ..common import Ctx
+    ctx = Ctx("C14")
+    c = dict(case)
+    c["rshape"] = {k: tuple(v) for k, v in c["rshape"].items()}
+    check_mixture_case(ctx, c)
+    for f in ctx.failures:
+        print(f.name, (f.witness or {}).get("problem", ""), "expected", f.expected, "got", f.got)
+    return bool(ctx.failures)
+
+
+def check_mixture_case(ctx, c):
+    from ..common import VERIF
+    rs = np.random.RandomState(c["seed"])
+    isize, rshape, member = c["isize"], c["rshape"], c["member"]
+    t_order, g_order = c["t_order"], c["g_order"]
+    g_ints = [n for n in g_order if n in isize]
+    reals = [n for n in g_order if n in rshape]
+    dim = sum((int(np.prod(rshape[n])) if rshape[n] else 1) for n in reals)
+    rank = dim + c["rank_extra"]
+    tshape = tuple(isize[n] for n in t_order)
+    tdata = np.round(rs.standard_normal(tshape) * 4) / 4
+    tdata = np.where(rs.random_sample(tshape) < 0.2, -np.inf, tdata)
+    gshape = tuple(isize[n] for n in g_ints)
+    P = rs.standard_normal(gshape + (dim, rank)) + 2.0 * np.eye(dim, rank)
+    wv = rs.standard_normal(gshape + (rank,))
+    case = dict(c)
+    case["rshape"] = {k: list(v) for k, v in rshape.items()}
+    wit = dict(case)
+    py = MIX_PY.format(verif=str(VERIF), case=case)
+    pattern = "+".join(sorted(set(f"{member[n]}{'s' if n in c['sampled'] else 'u'}" for n in isize)))
+    ctx.count(f"mixture:pattern:{pattern}")
+    try:
+        t = Tensor(tdata, OrderedDict((n, Bint[isize[n]]) for n in t_order))
+        g = Gaussian(wv, P, OrderedDict((n, Bint[isize[n]] if n in isize else (Reals[rshape[n]] if rshape[n] else Real))
+                                        for n in g_order))
+        mix = (g + t) if c["flip"] else (t + g)
+    except DECLINE as e:
+        ctx.count(f"mixture:build-declined:{type(e).__name__}")
+        return
+    si = OrderedDict(p=Bint[c["particles"]]) if c["particles"] else OrderedDict()
+    S = frozenset(c["sampled"])
+
+    def run():
+        r1 = np.random.RandomState(c["seed"] + 7)
+        with RandStub(rand_fn=lambda shape: np.clip(r1.random_sample(shape), 1e-6, 1 - 1e-6),
+                      randn_fn=lambda shape: r1.standard_normal(shape)), np.errstate(all="ignore"):
+            return mix.sample(S, si)
+    try:
+        smp = run()
+    except DECLINE as e:
+        ctx.count(f"mixture:declined:{type(e).__name__}")
+        return
+    if smp is mix:
+        ctx.count("mixture:no-progress")
+        return
+    want_inputs = set(mix.inputs) | set(si)
+    if set(smp.inputs) != want_inputs or smp.output != Real:
+        w = dict(wit)
+        w["problem"] = "inputs/output of the sample of a mixture"
+        ctx.fail("input", "C14.mixture-inputs", witness=w, expected=str(sorted(want_inputs)),
+                 got=str(sorted(smp.inputs)), python=py)
+        return
+    # exact identity, per particle and per value of the un-sampled integer inputs: the sample's mass over the
+    # sampled variables (real variables integrated as well) is  sum_{sampled ints} exp(T) * Z,  Z = Gaussian integral
+    red = S | frozenset(reals)
+    free = [n for n in isize if n not in S]
+    order = ([("p", c["particles"])] if c["particles"] else []) + [(n, isize[n]) for n in free]
+    try:
+        with np.errstate(all="ignore"):
+            mass = smp.reduce(ops.logaddexp, red)
+            tm = table(mass, order)
+    except DECLINE as e:
+        ctx.count(f"mixture:reduce-declined:{type(e).__name__}")
+        return
+    except KeyError as e:
+        w = dict(wit)
+        w["problem"] = f"mass of the sample has an unexpected input: {e}"
+        ctx.fail("input", "C14.mixture-inputs", witness=w, expected=str(order), got=str(e), python=py)
+        return
+    if tm is None:
+        ctx.count("mixture:mass-lazy")
+        return
+    Lam = P @ np.swapaxes(P, -1, -2)
+    eta = (P @ wv[..., None])[..., 0]
+    logz = (0.5 * dim * math.log(2 * math.pi) - 0.5 * np.linalg.slogdet(Lam)[1]
+            + 0.5 * (eta[..., None, :] @ np.linalg.solve(Lam, eta[..., None]))[..., 0, 0] - 0.5 * (wv ** 2).sum(-1))
+    names = list(isize)
+
+    def expand(arr, have):
+        arr = np.asarray(arr).transpose([have.index(n) for n in names if n in have]) if have else np.asarray(arr)
+        return arr.reshape([isize[n] if n in have else 1 for n in names])
+    joint = expand(tdata, t_order) + expand(logz, g_ints)            # over all integer inputs, in `names` order
+    joint = np.broadcast_to(joint, [isize[n] for n in names])
+    axes = tuple(k for k, n in enumerate(names) if n in S)
+    with np.errstate(all="ignore"):
+        mx = np.max(joint, axis=axes, keepdims=True) if axes else joint
+        mx = np.where(np.isfinite(mx), mx, 0.0)
+        want = (np.log(np.sum(np.exp(joint - mx), axis=axes)) + np.squeeze(mx, axes)) if axes else joint
+    want_b = np.broadcast_to(want, tm.shape)
+    with np.errstate(all="ignore"):
+        ok = np.allclose(np.exp(tm - np.where(np.isfinite(want_b), want_b, 0.0)),
+                         np.exp(want_b - np.where(np.isfinite(want_b), want_b, 0.0)), rtol=1e-7, atol=1e-9)
+    if not ok:
+        w = dict(wit)
+        w["problem"] = (f"mass of the sample over the sampled variables {sorted(S)} (reals integrated), per particle and per "
+                        f"value of the un-sampled integer inputs {free}")
+        ctx.fail("input", "C14.mixture-mass", witness=w, expected=str(want.tolist()), got=str(tm.tolist()), python=py)
+        return
+    # support of the sampled discrete variables that the Tensor sees
+    try:
+        pts = extract_samples(smp)
+        t_s = [n for n in t_order if n in S and n in pts]
+        if t_s:
+            tabs = {n: table(pts[n], order) for n in t_s}
+            if all(v is not None for v in tabs.values()):
+                tfull = np.broadcast_to(expand(tdata, t_order), [isize[n] for n in names])
+                for idx in itertools.product(*[range(v) for _, v in order]):
+                    env = dict(zip([n for n, _ in order], idx))
+                    if not np.isfinite(want_b[idx]):
+                        continue
+                    env.update({n: int(tabs[n][idx]) for n in t_s})
+                    # remaining sampled integer inputs (Gaussian-only) do not enter the Tensor
+                    cell = tfull[tuple(env.get(n, 0) for n in names)]
+                    if all(n in env or n not in t_order for n in names) and cell == -np.inf:
+                        w = dict(wit)
+                        w["problem"] = f"sampled point {dict((n, env[n]) for n in t_s)} at {idx} has probability 0"
+                        ctx.fail("input", "C14.mixture-support", witness=w, expected="a cell of the support",
+                                 got=str(env), python=py)
+                        return
+                ctx.count("mixture:support-checked")
+    except DECLINE + (ValueError,) as e:
+        ctx.count(f"mixture:extract-declined:{type(e).__name__}")
+    # same random state -> same sample
+    try:
+        with np.errstate(all="ignore"):
+            tm2 = table(run().reduce(ops.logaddexp, red), order)
+        if tm2 is None or not np.array_equal(tm2, tm, equal_nan=True):
+            w = dict(wit)
+            w["problem"] = "same uniforms and noise, different sample"
+            ctx.fail("input", "C14.mixture-deterministic", witness=w, python=py)
+            return
+    except DECLINE:
+        pass
+    strict = len(free) > 0
+    ctx.count("mixture:free-G-only-input" if any(member[n] == "G" for n in free) else "mixture:other")
+    ctx.case(sample={k: case[k] for k in ("member", "isize", "rshape", "sampled", "particles")},
+             nontrivial_key=("mixture", str(case)) if strict or len(S) >= 2 else None)
+
+
+def mixture_streams(ctx):
+    n = 200 if ctx.tier == "quick" else 4000
+    for _ in range(n):
+        check_mixture_case(ctx, gen_mixture_case(ctx.rng))
+
+
+# --------------------------------------------------------------------------------------
 # Mixed radix: exhaustive over a box, model vs numpy's own unravel (validates the model's flattening)
 # --------------------------------------------------------------------------------------
 
@@ -1694,13 +1892,17 @@ def correspond(ctx):
         "by adding single Deltas) evaluated at all points and reduced / integrated over EVERY subset of their "
         "variables (empty, strict, full), result inputs checked.  Gaussian.sample: 0-2 integer inputs, 1-3 real inputs of "
         "shape () / (1,) / (2,), rank dim..dim+2, full and partial sampling, eager / particle / lazy noise with "
-        "numpy.random.randn stubbed.  Non-trivial = a row with >= 2 positive cells (sample), domain size >= 2 "
+        "numpy.random.randn stubbed.  Mixtures Tensor + Gaussian (Contraction._sample): 1-4 integer inputs each in the "
+        "Tensor only / the Gaussian only / both, each sampled or not, 1-2 real inputs, every kind of sampled subset, "
+        "0/2/3 particles; gate per particle and per value of the un-sampled integer inputs: mass over the sampled "
+        "variables (reals integrated) = sum over sampled ints of exp(T) * textbook Gaussian integral.  Non-trivial = a row with >= 2 positive cells (sample), domain size >= 2 "
         "(Delta), >= 2 sampled dimensions or a conditioning block (Gaussian); distinct by full case content.")
     radix_box(ctx)
     sample_streams(ctx)
     rounding_stream(ctx)
     delta_streams(ctx)
     gauss_streams(ctx)
+    mixture_streams(ctx)
     d = ctx.distribution
     tot = d.get("sample:fidelity-ok", 0) + d.get("sample:fidelity-differs", 0)
     ctx.extra["sample_model_fidelity"] = (d.get("sample:fidelity-ok", 0) / tot) if tot else None
@@ -1745,5 +1947,9 @@ def search(ctx, broken):
             return
     for _ in range(600):
         check_gauss_case(ctx, gen_gauss_case(rng))
+        if found():
+            return
+    for _ in range(2500):
+        check_mixture_case(ctx, gen_mixture_case(rng))
         if found():
             return
